@@ -55,14 +55,18 @@ Proof.
   - inversion H; subst. split; [assumption | apply IH; assumption].
 Qed.
 Lemma atoms_ok_PDict : forall o l,
-  atoms_ok o (PDict l) <-> Forall (fun kv => atoms_ok o (fst kv) /\ atoms_ok o (snd kv)) l.
+  atoms_ok o (PDict l) <->
+  Forall (fun kv => atoms_ok o (fst kv) /\ atoms_ok o (snd kv)) l /\
+  Forall (fun kv => forall a, denote o (fst kv) = Some a -> out_hashable a = true) l.
 Proof.
-  intros o l. cbn [atoms_ok]. induction l as [|[k x] r IH]; split; intro H.
-  - constructor.
-  - exact I.
-  - destruct H as [Hk [Hx Hr]]. constructor; [split; assumption | apply IH; exact Hr].
-  - inversion H as [|? ? [Hk Hx] Hr]; subst. cbn [fst snd] in *. split; [assumption|]. split; [assumption|].
-    apply IH; assumption.
+  intros o l. cbn [atoms_ok]. unfold denote. induction l as [|[k x] r IH]; split; intro H.
+  - split; constructor.
+  - split; exact I.
+  - destruct H as [[Hk [Hx Hr]] [Hh Hhr]]. destruct (proj1 IH (conj Hr Hhr)) as [I1 I2].
+    split; constructor; try assumption. split; assumption.
+  - destruct H as [H1 H2]. inversion H1 as [|? ? [Hk Hx] Hr]; subst. inversion H2 as [|? ? Hh Hhr]; subst.
+    cbn [fst snd] in *. destruct (proj2 IH (conj Hr Hhr)) as [I1 I2].
+    split; [split; [assumption|]; split; assumption | split; assumption].
 Qed.
 
 (* ------------------------------------------------------------------ *)
@@ -205,7 +209,7 @@ Proof.
     + destruct l as [|x [|y r]]; cbn [map List.length]; intro E; try discriminate. reflexivity.
     + destruct l as [|x [|y r]]; cbn [map]; intro E; try discriminate. reflexivity.
     + apply lit_wf_items. exact (Forall_map_impl _ _ _ _ IH H).
-  - apply atoms_ok_PDict in H. cbn [lit_of lit_wf]. apply lit_wf_ditems.
+  - apply atoms_ok_PDict in H. destruct H as [H _]. cbn [lit_of lit_wf]. apply lit_wf_ditems.
     apply (Forall_map_impl (fun kv => atoms_ok o (fst kv) /\ atoms_ok o (snd kv))); [|exact H].
     eapply Forall_impl; [|exact IH]. cbn beta. intros [k x] [Hk Hx] [Ak Ax]. cbn [fst snd] in *. split; auto.
 Qed.
@@ -224,6 +228,17 @@ Proof.
   cbn [fst snd] in Ha, Hb. exists ((a, b) :: kvs). cbn [eval_ditems]. rewrite Ha, Hb, IH. reflexivity.
 Qed.
 
+Lemma eval_ditems_keys_hashable : forall o items kvs, eval_ditems o items = Some kvs ->
+  Forall (fun kv => forall a, py_eval o (fst kv) = Some a -> out_hashable a = true) items -> keys_hashable kvs = true.
+Proof.
+  intros o items. induction items as [|[k v] r IH]; intros kvs E H; cbn [eval_ditems] in E.
+  - injection E as <-. reflexivity.
+  - destruct (py_eval o k) as [a|] eqn:Ek; [|discriminate]. destruct (py_eval o v) as [b|]; [|discriminate].
+    destruct (eval_ditems o r) as [rest|]; [|discriminate]. injection E as <-.
+    inversion H as [|? ? Hk Hr]; subst. cbn [fst] in Hk. unfold keys_hashable. cbn [forallb fst].
+    rewrite (Hk a Ek). exact (IH rest eq_refl Hr).
+Qed.
+
 Theorem value_denotes : forall o v, atoms_ok o v -> exists x, denote o v = Some x.
 Proof.
   intros o. unfold denote. induction v as [t|t|t|l IH|l IH|l IH] using pv_ind'; intro H.
@@ -237,11 +252,12 @@ Proof.
   - apply atoms_ok_PTuple in H. cbn [lit_of]. rewrite py_eval_LTuple.
     destruct (eval_items_some o (map lit_of l)) as [vs E]; [exact (Forall_map_impl _ _ _ _ IH H)|].
     rewrite E. eexists; reflexivity.
-  - apply atoms_ok_PDict in H. cbn [lit_of]. rewrite py_eval_LDict.
+  - apply atoms_ok_PDict in H. destruct H as [H Hh]. cbn [lit_of]. rewrite py_eval_LDict.
     destruct (eval_ditems_some o (map (fun kv => (lit_of (fst kv), lit_of (snd kv))) l)) as [kvs E].
     { apply (Forall_map_impl (fun kv => atoms_ok o (fst kv) /\ atoms_ok o (snd kv))); [|exact H].
       eapply Forall_impl; [|exact IH]. cbn beta. intros [k x] [Hk Hx] [Ak Ax]. cbn [fst snd] in *. split; auto. }
-    rewrite E. eexists; reflexivity.
+    rewrite E. rewrite (eval_ditems_keys_hashable o _ kvs E); [eexists; reflexivity|].
+    apply Forall_map. eapply Forall_impl; [|exact Hh]. intros [k x] Hk. exact Hk.
 Qed.
 
 (* ------------------------------------------------------------------ *)
@@ -542,43 +558,117 @@ Proof.
   - apply out_eqb_false_iff. apply out_eqb_false_iff in E. congruence.
 Qed.
 
-(* keys pairwise different w.r.t. out_eqb *)
+(* ---- Python's key equality on observations ---- *)
+Fixpoint outs_py_eqb (l1 l2 : list out) : bool :=
+  match l1, l2 with
+  | [], [] => true
+  | x :: r1, y :: r2 => out_py_eqb x y && outs_py_eqb r1 r2
+  | _, _ => false
+  end.
+Lemma out_py_eqb_unfold : forall a b, out_py_eqb a b =
+  match out_num a, out_num b with
+  | Some (r1, i1), Some (r2, i2) => num_eqb r1 r2 && num_eqb i1 i2
+  | Some _, None | None, Some _ => false
+  | None, None =>
+      match a, b with
+      | OT t xs, OT u ys => if String.eqb t "T" && String.eqb u "T" then outs_py_eqb xs ys else out_eqb a b
+      | _, _ => out_eqb a b
+      end
+  end.
+Proof. intros a b. destruct a; reflexivity. Qed.
+Lemma num_eqb_refl : forall n, num_eqb n n = true.
+Proof. intros [m e|x|]; cbn [num_eqb]; [apply Z.eqb_refl | destruct x; reflexivity | reflexivity]. Qed.
+Lemma outs_py_eqb_refl : forall l, Forall (fun a => out_py_eqb a a = true) l -> outs_py_eqb l l = true.
+Proof. intros l H. induction H as [|x r Hx _ IH]; [reflexivity|]. cbn [outs_py_eqb]. rewrite Hx, IH. reflexivity. Qed.
+(* a key is equal to itself (the one float that is not, nan, is no value of an atom; the model takes one nan object) *)
+Theorem out_py_eqb_refl : forall a, out_py_eqb a a = true.
+Proof.
+  induction a as [s|z|l IH|t l IH] using out_ind'; rewrite out_py_eqb_unfold.
+  - cbn [out_num]. apply out_eqb_refl.
+  - cbn [out_num]. apply out_eqb_refl.
+  - cbn [out_num]. apply out_eqb_refl.
+  - destruct (out_num (OT t l)) as [[r i]|].
+    + rewrite !num_eqb_refl. reflexivity.
+    + destruct (String.eqb t "T" && String.eqb t "T"); [apply outs_py_eqb_refl; exact IH | apply out_eqb_refl].
+Qed.
+
+(* keys pairwise different in Python (neither equals the other) *)
 Definition keys_distinct (kvs : list (out * out)) : Prop :=
   forall i j, i < List.length kvs -> j < List.length kvs -> i <> j ->
-  out_eqb (fst (nth i kvs (ONone, ONone))) (fst (nth j kvs (ONone, ONone))) = false.
+  out_py_eqb (fst (nth i kvs (ONone, ONone))) (fst (nth j kvs (ONone, ONone))) = false.
 
-Lemma keys_distinct_NoDup : forall kvs, keys_distinct kvs <-> NoDup (map fst kvs).
+(* the same as a list predicate: every item against every later one, both ways *)
+Definition py_diff (a b : out * out) : Prop := out_py_eqb (fst a) (fst b) = false /\ out_py_eqb (fst b) (fst a) = false.
+Fixpoint kd (l : list (out * out)) : Prop :=
+  match l with [] => True | x :: r => Forall (py_diff x) r /\ kd r end.
+Lemma keys_distinct_kd : forall l, keys_distinct l <-> kd l.
+Proof.
+  induction l as [|x r IH]; split; intro H.
+  - exact I.
+  - intros i j Hi. cbn in Hi. lia.
+  - split.
+    + apply Forall_forall. intros y Hy. destruct (In_nth _ _ (ONone, ONone) Hy) as [n [Hn En]]. split.
+      * specialize (H 0 (S n)). cbn [nth List.length] in H. rewrite En in H. apply H; lia.
+      * specialize (H (S n) 0). cbn [nth List.length] in H. rewrite En in H. apply H; lia.
+    + apply IH. intros i j Hi Hj Hne. specialize (H (S i) (S j)). cbn [nth List.length] in H. apply H; lia.
+  - destruct H as [Hx Hr]. apply IH in Hr. rewrite Forall_forall in Hx. intros [|i] [|j] Hi Hj Hne; cbn [List.length] in Hi, Hj.
+    + congruence.
+    + cbn [nth]. apply (Hx (nth j r (ONone, ONone))). apply nth_In. lia.
+    + cbn [nth]. apply (Hx (nth i r (ONone, ONone))). apply nth_In. lia.
+    + cbn [nth]. apply Hr; lia.
+Qed.
+Lemma kd_perm : forall l1 l2, Permutation l1 l2 -> kd l1 -> kd l2.
+Proof.
+  intros l1 l2 Hp. induction Hp as [|x l l' Hp IH|x y l|l l' l'' _ IH1 _ IH2]; intro H.
+  - exact I.
+  - destruct H as [Hx Hr]. split; [exact (Permutation_Forall Hp Hx) | exact (IH Hr)].
+  - destruct H as [Hy [Hx Hr]]. inversion Hy as [|? ? [A B] Hy']; subst.
+    split; [constructor; [split; assumption | exact Hx]|]. split; assumption.
+  - exact (IH2 (IH1 H)).
+Qed.
+
+(* pairwise different keys are in particular different observations; not conversely: 1 and True are one key *)
+Lemma keys_distinct_NoDup : forall kvs, keys_distinct kvs -> NoDup (map fst kvs).
 Proof.
   intro kvs. rewrite (NoDup_nth (map fst kvs) (fst (ONone, ONone))). rewrite map_length. unfold keys_distinct.
-  split; intros H i j Hi Hj.
-  - rewrite !map_nth. intro E. destruct (Nat.eq_dec i j) as [|Hne]; [assumption|].
-    specialize (H i j Hi Hj Hne). apply out_eqb_false_iff in H. contradiction.
-  - intro Hne. apply out_eqb_false_iff. intro E. apply Hne. apply (H i j Hi Hj). rewrite !map_nth. exact E.
+  intros H i j Hi Hj. rewrite !map_nth. intro E. destruct (Nat.eq_dec i j) as [|Hne]; [assumption|].
+  specialize (H i j Hi Hj Hne). rewrite E, out_py_eqb_refl in H. discriminate.
 Qed.
-
-Lemma dict_set_fresh : forall k v acc, ~ In k (map fst acc) -> dict_set k v acc = acc ++ [(k, v)].
+Example NoDup_keys_not_distinct :
+  let kvs := [(OT "int" [OS "1"], OS "a"); (OT "bool" [OS "True"], OS "b")] in
+  NoDup (map fst kvs) /\ ~ keys_distinct kvs /\
+  build_dict kvs = OT "D" [OL [OT "int" [OS "1"]; OS "b"]].
 Proof.
-  intros k v acc. induction acc as [|[j w] r IH]; intro H; [reflexivity|].
-  cbn [dict_set app]. cbn [map fst In] in H.
-  destruct (out_eqb k j) eqn:E.
-  - apply out_eqb_iff in E. exfalso. apply H. left. congruence.
-  - rewrite IH; [reflexivity|]. intro C. apply H. right. exact C.
+  split; [|split].
+  - repeat constructor; cbn; intuition discriminate.
+  - intro H. specialize (H 0 1). cbn in H. assert (E : true = false) by (apply H; lia). discriminate.
+  - vm_compute. reflexivity.
 Qed.
 
-Lemma fold_dict_set_distinct : forall items acc, NoDup (map fst (acc ++ items)) ->
+Lemma dict_set_fresh : forall k v acc, Forall (fun jw => out_py_eqb k (fst jw) = false) acc ->
+  dict_set k v acc = acc ++ [(k, v)].
+Proof.
+  intros k v acc H. induction H as [|[j w] r E _ IH]; [reflexivity|].
+  cbn [dict_set app]. cbn [fst] in E. rewrite E, IH. reflexivity.
+Qed.
+
+Lemma fold_dict_set_distinct : forall items acc, kd (acc ++ items) ->
   fold_left (fun acc kv => dict_set (fst kv) (snd kv) acc) items acc = acc ++ items.
 Proof.
   induction items as [|[k v] r IH]; intros acc H; cbn [fold_left]; [rewrite app_nil_r; reflexivity|].
   cbn [fst snd]. rewrite dict_set_fresh.
   - rewrite IH; rewrite <- app_assoc; [reflexivity | exact H].
-  - rewrite map_app in H. cbn [map fst] in H. apply NoDup_remove_2 in H. intro C. apply H.
-    apply in_or_app. left. exact C.
+  - clear IH. induction acc as [|a acc IHa]; [constructor|]. cbn [app kd] in H. destruct H as [Ha Hr].
+    constructor; [|exact (IHa Hr)]. apply Forall_app in Ha. destruct Ha as [_ Ha]. inversion Ha as [|? ? [_ B] _]; subst.
+    exact B.
 Qed.
 
-(* with distinct keys no entry is merged: the dict holds the items as written *)
-Theorem build_dict_distinct : forall kvs, NoDup (map fst kvs) ->
+(* with pairwise different keys no entry is merged: the dict holds the items as written *)
+Theorem build_dict_distinct : forall kvs, keys_distinct kvs ->
   build_dict kvs = OT "D" (map (fun kv => OL [fst kv; snd kv]) kvs).
-Proof. intros kvs H. unfold build_dict. rewrite (fold_dict_set_distinct kvs [] H). reflexivity. Qed.
+Proof.
+  intros kvs H. apply keys_distinct_kd in H. unfold build_dict. rewrite (fold_dict_set_distinct kvs [] H). reflexivity.
+Qed.
 
 Theorem dict_order_irrelevant : forall kvs1 kvs2,
   keys_distinct kvs1 -> Permutation kvs1 kvs2 ->
@@ -587,10 +677,10 @@ Theorem dict_order_irrelevant : forall kvs1 kvs2,
     es1 = map (fun kv => OL [fst kv; snd kv]) kvs1 /\ es2 = map (fun kv => OL [fst kv; snd kv]) kvs2 /\
     Permutation es1 es2.
 Proof.
-  intros kvs1 kvs2 Hd Hp. apply keys_distinct_NoDup in Hd.
-  assert (Hd2 : NoDup (map fst kvs2)).
-  { eapply Permutation_NoDup; [|exact Hd]. apply Permutation_map. exact Hp. }
-  split; [apply keys_distinct_NoDup; exact Hd2|].
+  intros kvs1 kvs2 Hd Hp.
+  assert (Hd2 : keys_distinct kvs2).
+  { apply keys_distinct_kd. apply (kd_perm _ _ Hp). apply keys_distinct_kd. exact Hd. }
+  split; [exact Hd2|].
   eexists _, _. split; [apply build_dict_distinct; exact Hd|]. split; [apply build_dict_distinct; exact Hd2|].
   split; [reflexivity|]. split; [reflexivity|]. apply Permutation_map. exact Hp.
 Qed.
@@ -626,8 +716,12 @@ Proof.
   change (map (fun kv => (lit_of (fst kv), lit_of (snd kv))) l1) with (map ditem_lit l1) in Hden.
   change (map (fun kv => (lit_of (fst kv), lit_of (snd kv))) l2) with (map ditem_lit l2).
   rewrite py_eval_LDict in *.
-  destruct (eval_ditems o (map ditem_lit l1)) as [kvs1|] eqn:E1; [|discriminate]. injection Hden as <-.
+  destruct (eval_ditems o (map ditem_lit l1)) as [kvs1|] eqn:E1; [|discriminate].
+  destruct (keys_hashable kvs1) eqn:Hh1; [|discriminate]. injection Hden as <-.
   destruct (eval_ditems_perm o _ _ (Permutation_map ditem_lit Hp) _ E1) as [kvs2 [E2 P2]].
+  assert (Hh2 : keys_hashable kvs2 = true).
+  { unfold keys_hashable in *. rewrite forallb_forall in *. intros kv Hin. apply Hh1.
+    exact (Permutation_in _ (Permutation_sym P2) Hin). }
   destruct (dict_order_irrelevant kvs1 kvs2 (Hdist _ eq_refl) P2) as [_ [es1 [es2 [B1 [B2 [-> [-> _]]]]]]].
-  exists (build_dict kvs2), kvs1, kvs2. rewrite E2. repeat split; assumption.
+  exists (build_dict kvs2), kvs1, kvs2. rewrite E2, Hh2. repeat split; assumption.
 Qed.
